@@ -5,6 +5,7 @@ import KyupyVerif.Proofs.Solve
 import KyupyVerif.Proofs.GenOpsWO
 import KyupyVerif.Proofs.StripLinkMem
 import KyupyVerif.Gen.Tables
+import KyupyVerif.Proofs.CycleNet
 /-! # C01 — 2-valued logic simulation computes the netlist's Boolean function
 
 Generated from the working tree: `Gen.sem2n` (what `logic_sim._prop_cpu` computes for an op code),
@@ -159,6 +160,137 @@ def demoMap : MapIn :=
     caps := #[1, 1, 1, 1, 1, 1, 1, 1, 1, 1, 1, 0, 0, 0, 1], cLen := 9, capsMin := 1 }
 example : demoMap.ops = genOps Gen.kindPrefixes demoMap.net [0, 2, 1, 3, 4, 5, 6] false ∧ demoMap.check = none ∧
     demoMap.ppoSrcs = [(14, 5)] := by decide +kernel
+
+
+/-! ### the sequential part: `s_to_c`, `c_to_s`, `s_ppo_to_ppi`, `cycle(k)`
+
+Model `Cycle.cycle1 / Cycle.cycleK` (Model/Cycle.lean, signal level: memory = environment over the `c_locs` index space),
+tied to `LogicSim.cycle` by exact correspondence of the index tables and of `s[0]`, `s[1]` (harness/c01.py `cycle_tie`,
+m = 2, 4, 8). `sem` is any op semantics over any value domain `α` (one lane of `s[·, p, :mdim]`), `merge` what
+`s_ppo_to_ppi` makes of (old assignment, captured value): `Cycle.mergeCopy` for m = 2, 4; the transition builder for m = 8. -/
+open KV.Cycle in
+/-- (6) **one clock cycle.** For every well-formed netlist and topological order: let `val` be ANY labelling that solves the
+    gate equations under the assignment `s[0]` (i.e. `val (ppi_offset + p) = s[0][p]` for every position with a (P)PI slot,
+    every op equation holds; it is unique by `all_circuits_solution`). After `s_to_c; c_prop; c_to_s; s_ppo_to_ppi`:
+    (a) `s[1][p] = val l` for every position whose data pin 0 carries line `l` (ports and state elements);
+    (b) a flip-flop / latch with open data pin captures the constant slot; (c) a port without data pin keeps `s[1][p]`;
+    (d) `s[0][p]` of every port is unchanged; (e) `s[0][p]` of every state element is `merge old s[1][p]`. -/
+theorem cycle_step {α} (tbl : List PrefixRow) (net : Net) (order : List Nat)
+    (hwf : net.wfB = true) (ho : orderOKB net order = true) (sem : Op → List α → α) (merge : α → α → α) (d : α)
+    (st : St α) (h0 : st.s.s0.length = net.sNodes.length) (h1 : st.s.s1.length = net.sNodes.length)
+    (val : Nat → α)
+    (hval : SolvesJ (Jt net) sem ((genOps tbl net order false).map OpRow.toOp) (sToC (tabsOf net false) d st.s.s0 st.env) val) :
+    let r := cycle1 sem (sigOps tbl net order false) (tabsOf net false) merge d st
+    (∀ p l, p < net.sNodes.length → (sNodeAt net p).inPin 0 = some l → r.s.s1[p]? = some (val l)) ∧
+    (∀ p, net.io.length ≤ p → p < net.sNodes.length → (sNodeAt net p).inPin 0 = none → r.s.s1[p]? = some (val net.idx.zero)) ∧
+    (∀ p, p < net.io.length → (sNodeAt net p).inPin 0 = none → r.s.s1[p]? = st.s.s1[p]?) ∧
+    (∀ p, p < net.io.length → r.s.s0[p]? = st.s.s0[p]?) ∧
+    (∀ p, net.io.length ≤ p → p < net.sNodes.length → r.s.s0[p]? = some (merge (st.s.s0.getD p d) (r.s.s1.getD p d))) := by
+  intro r
+  have hr : r.s = stepS sem (sigOps tbl net order false) net false merge d st.env st.s := cycle1_s _ _ _ _ _ _ _ h0 h1
+  have hsol := sol_eq_val tbl net order hwf ho sem _ val hval
+  have hcap : ∀ p, solOf sem (sigOps tbl net order false) (tabsOf net false) d st.env st.s.s0 (capSig net false p)
+      = val (capSig net false p) := fun p => hsol _ (capSig_notJunk net hwf p)
+  have hpo : ∀ p, p < net.sNodes.length → (net.io.length ≤ p ∨ ((sNodeAt net p).inPin 0).isSome = true) →
+      r.s.s1[p]? = some (val (capSig net false p)) := by
+    intro p hp hc
+    rw [hr]
+    show (captureRow net false _ st.s.s1)[p]? = _
+    rw [captureRow_at net false _ _ p (by omega) (isPoppo_of net p hp hc), hcap]
+  refine ⟨?_, ?_, ?_, ?_, ?_⟩
+  · intro p l hp hl
+    rw [hpo p hp (Or.inr (by rw [hl]; rfl)), capSig_false, hl]
+  · intro p hio hp hl
+    rw [hpo p hp (Or.inl hio), capSig_false, hl]
+  · intro p hp hl
+    rw [hr]
+    exact captureRow_skip net false _ _ p (by unfold isPoppo; simp [hp, hl])
+  · intro p hp
+    rw [hr]
+    exact nextRow_port net false merge _ _ p hp
+  · intro p hio hp
+    have h1p := hpo p hp (Or.inl hio)
+    have : r.s.s1.getD p d = val (capSig net false p) := by rw [List.getD_eq_getElem?_getD, h1p]; rfl
+    rw [this, hr]
+    show (nextRow net false merge _ st.s.s0)[p]? = _
+    rw [nextRow_state net false merge d _ _ p hio (by omega), hcap]
+
+open KV.Cycle in
+/-- the constant-0 slot is an input of the equation system: every solution reads there what the memory held before -/
+theorem cycle_zero_slot {α} (tbl : List PrefixRow) (net : Net) (order : List Nat)
+    (hwf : net.wfB = true) (ho : orderOKB net order = true) (sem : Op → List α → α) (d : α) (a : List α) (env val : Nat → α)
+    (hval : SolvesJ (Jt net) sem ((genOps tbl net order false).map OpRow.toOp) (sToC (tabsOf net false) d a env) val) :
+    val net.idx.zero = env net.idx.zero := by
+  obtain ⟨hz, ht, hp⟩ := idx_vals net
+  have hj : Jt net net.idx.zero = false := by simp only [Jt, beq_eq_false_iff_ne]; omega
+  have hlt := orderOK_lt ho
+  rw [hval.1 _ hj (fun o ho' => genOps_out_ne_zero tbl net order hwf hlt o ho'), sToC_apply, if_neg]
+  intro hm
+  obtain ⟨px, hpx, he⟩ := List.mem_map.1 hm
+  have := pippi_sig net false px hpx
+  omega
+
+open KV.Cycle in
+/-- (7) **`cycle(k)` iterates the next-state function k times, primary-input rows untouched.** For every well-formed netlist,
+    topological order, value domain, `k`: with `N a := nextRow (the labelling computed under assignment a) a`
+    (`Cycle.nextState`: ports keep their value, state element `p` gets `merge a[p] (value of its captured signal)`),
+    (a) `s[0]` after `cycle(k)` is `N^k s[0]`; (b) the rows of the ports are the initial ones; (c) after `k = j + 1` cycles `s[1]`
+    is the capture of the labelling of assignment `N^j s[0]` written over the initial `s[1]`. The memory contents left by earlier
+    cycles do not matter: the labelling is taken with the memory `st.env` of before the call, only its never-written signals
+    (the constant slot) are read (`Cycle.solOf_agree`). By (7') the labelling is THE solution of the gate equations. -/
+theorem cycle_iter {α} (tbl : List PrefixRow) (net : Net) (order : List Nat)
+    (hwf : net.wfB = true) (ho : orderOKB net order = true) (sem : Op → List α → α) (merge : α → α → α) (d : α)
+    (st : St α) (h0 : st.s.s0.length = net.sNodes.length) (h1 : st.s.s1.length = net.sNodes.length) (k : Nat) :
+    let ops := sigOps tbl net order false
+    let N := Cycle.nextState sem ops net false merge d st.env
+    let r := cycleK sem ops (tabsOf net false) merge d k st
+    r.s.s0 = iter N k st.s.s0 ∧
+    (∀ p, p < net.io.length → r.s.s0[p]? = st.s.s0[p]?) ∧
+    (∀ j, k = j + 1 → r.s.s1 = captureRow net false (solOf sem ops (tabsOf net false) d st.env (iter N j st.s.s0)) st.s.s1) := by
+  intro ops N r
+  have hw : WOJ (Jt net) ops := by
+    show WOJ (Jt net) (sigOps tbl net order false)
+    rw [sigOps_false]; exact genOps_WOJ tbl net order false hwf ho
+  have hr : r.s = iter (stepS sem ops net false merge d st.env) k st.s :=
+    cycleK_s (Jt net) sem ops hw net false (capSig_notJunk net hwf) merge d st.env k st h0 h1 (Agree.refl _ _ _)
+  have hs0 : r.s.s0 = iter N k st.s.s0 := by rw [hr]; exact iter_stepS_s0 _ _ _ _ _ _ _ _ _
+  refine ⟨hs0, ?_, ?_⟩
+  · intro p hp
+    rw [hs0]; exact iter_nextState_port _ _ _ _ _ _ _ _ _ p hp
+  · intro j hj
+    subst hj
+    rw [hr]; exact iter_stepS_s1 _ _ _ _ _ _ _ _ _
+
+open KV.Cycle in
+/-- (7') the next-state function is defined by THE solution: for any labelling `val` that solves the gate equations under the
+    assignment `a`, `nextState a = nextRow val a` -/
+theorem nextState_unique {α} (tbl : List PrefixRow) (net : Net) (order : List Nat)
+    (hwf : net.wfB = true) (ho : orderOKB net order = true) (sem : Op → List α → α) (merge : α → α → α) (d : α)
+    (env : Nat → α) (a : List α) (val : Nat → α)
+    (hval : SolvesJ (Jt net) sem ((genOps tbl net order false).map OpRow.toOp) (sToC (tabsOf net false) d a env) val) :
+    Cycle.nextState sem (sigOps tbl net order false) net false merge d env a = nextRow net false merge val a :=
+  nextRow_congr net false merge _ _ a fun p => sol_eq_val tbl net order hwf ho sem _ val hval _ (capSig_notJunk net hwf p)
+
+/-- non-vacuity of (6), (7): a toggle flip-flop with enable (`q' = q XOR en`; ports `en`, `out = q`), natural order.
+    With `en = 1` the state has period 2; the port row stays as assigned; the output port captures the OLD state. -/
+def demoSeq : Net :=
+  { nodes := #[⟨"input", [], [some 0]⟩, ⟨"__fork__", [some 0], [some 1]⟩, ⟨"DFF", [some 5], [some 2]⟩,
+               ⟨"__fork__", [some 2], [some 3, some 6]⟩, ⟨"XOR2", [some 1, some 3], [some 4]⟩, ⟨"__fork__", [some 4], [some 5]⟩,
+               ⟨"output", [some 6], []⟩],
+    lines := #[⟨0, 0, 1, 0⟩, ⟨1, 0, 4, 0⟩, ⟨2, 0, 3, 0⟩, ⟨3, 0, 4, 1⟩, ⟨4, 0, 5, 0⟩, ⟨5, 0, 2, 0⟩, ⟨3, 1, 6, 0⟩],
+    io := [0, 6] }
+def demoSt (en q : Bool) : Cycle.St Bool := ⟨fun _ => false, ⟨[en, false, q], [false, false, false]⟩⟩
+def demoRun (k : Nat) (en q : Bool) : Cycle.S Bool :=
+  (Cycle.cycleK (fun op => semL2n op.code) (Cycle.sigOps Gen.kindPrefixes demoSeq [0, 1, 2, 3, 4, 5, 6] false)
+    (Cycle.tabsOf demoSeq false) Cycle.mergeCopy false k (demoSt en q)).s
+example : demoSeq.wfB = true ∧ orderOKB demoSeq [0, 1, 2, 3, 4, 5, 6] = true ∧ demoSeq.sNodes = [0, 6, 2] ∧
+    (demoSt true false).s.s0.length = demoSeq.sNodes.length ∧ (demoSt true false).s.s1.length = demoSeq.sNodes.length := by
+  decide +kernel
+example : Cycle.tabsOf demoSeq false =
+    { ppi := 10, ppo := 13, pippi := [(0, 10), (2, 12)], poppo := [(1, 6), (2, 5)], ppio := [2] } := by decide +kernel
+example : (demoRun 1 true false).s0 = [true, false, true] ∧ (demoRun 1 true false).s1 = [false, false, true] ∧
+    (demoRun 2 true false).s0 = [true, false, false] ∧ (demoRun 2 true false).s1 = [false, true, false] ∧
+    (demoRun 5 true false).s0 = [true, false, true] ∧ (demoRun 3 false true).s0 = [false, false, true] := by decide +kernel
 
 /-- (5) lane-wise for every lane count: lane `k` of the bit-parallel result is the per-lane function -/
 theorem lanewise2 (w k : Nat) (hk : k < w) (code : Nat) (a b c d : BitVec w) :
